@@ -859,7 +859,12 @@ def check_composite_state(case, obs, comp_init):
         for pl in decls_by_proc[which]:
             for a, v in pl:
                 placements.setdefault(a, []).append(v)
-        if placements is None:
+        # dictionary-valued placements merge into whatever is there (or raise on a non-dict):
+        # no prediction for such composites
+        if any(isinstance(v, dict) for vals in placements.values() for v in vals):
+            continue
+        pl_paths = list(placements)
+        if any(a != b and is_prefix(a, b) for a in pl_paths for b in pl_paths):
             continue
         if 'ok' not in o:
             fails.append(f'composite-{which}: raised {o}')
